@@ -42,7 +42,7 @@ pub struct Bad {
 pub fn meta() -> PropMeta {
   PropMeta {
     id: "C03",
-    rule: "cells: all cells of depth 0..=6 (quick) / 0..=9 (thorough) enumerated for centre / vertices / paths / grid, plus generated (depth 0..=29, cell by class: base-cell corners / borders / one step inside / uniform); offsets: (cell, dx, dy) with dx,dy in [m, 1-m], m = 2^(depth-38), incl. values at m and 1-m; positions: 5-class generator x depth for hash_with_dxdy; non-trivial = cell on a base-cell border or corner, or depth >= 10, or a position of a non-uniform class; distinct by (depth, cell[, offsets]) / (depth, lon bits, lat bits)",
+    rule: "cells: all cells of depth 0..=6 (quick) / 0..=9 (thorough) enumerated for centre / vertices / paths / grid, plus generated (depth 0..=29, cell by class: base-cell corners / borders / one step inside / uniform); offsets: (cell, dx, dy) with dx,dy in [m, 1-m], m = 2^(depth-42), incl. values at m and 1-m; positions: 5-class generator x depth for hash_with_dxdy; non-trivial = cell on a base-cell border or corner, or depth >= 10, or a position of a non-uniform class; distinct by (depth, cell[, offsets]) / (depth, lon bits, lat bits)",
     assumptions: vec![
       "inward nudge of boundary points is done in the projection plane with the harness' reference projection (fraction max(1e-6, 2^(depth-36)) of the way to the cell centre)".into(),
       "tolerances: 1e-13*max(1,|lon|/2pi) rad for position recovery, 1e-15 rad between accessors, 1e-14 rad vs. model vertices, tau for containment; offsets accepted in [-t, 1+t] with t = 1e-9 + 2^-50*nside (the rounding of a plane coordinate times nside)".into(),
@@ -387,7 +387,7 @@ fn strat_cell() -> BoxedStrategy<CellCase> {
 fn strat_off() -> BoxedStrategy<OffCase> {
   gens::depth_and_cell()
     .prop_flat_map(|(depth, cell)| {
-      let m = (2.0f64).powi(depth as i32 - 38);
+      let m = (2.0f64).powi(depth as i32 - 42);
       let o = move || prop_oneof![2 => Just(m), 2 => Just(1.0 - m), 1 => Just(0.5), 5 => (m..=(1.0 - m))];
       (o(), o()).prop_map(move |(dx, dy)| OffCase { depth, cell, dx, dy })
     })
